@@ -180,3 +180,75 @@ def checks(tier):
                pins=[(2, {"k0": 1, "k1": 5, "k2": 9, "probe": 5}), (2, {"k0": 1, "k1": 5, "k2": 9, "probe": 6})],
                tiers=q),
     ]
+
+
+# ---------------------------------------------------------------------------------------------
+# (c) pack index writers/readers with symbolic offsets, checksums and fan-out bytes
+_b02 = checks
+
+
+class _NoFile:
+    closed = True
+
+    def close(self):
+        pass
+
+
+def h_index_roundtrip(eng, version=2, k=2):
+    """write_pack_index_v{1,2,3} -> PackIndex{1,2,3}: every written name maps back to its offset and crc; an absent name
+    is a KeyError; iteration returns the entries in order; fan-out is monotone and ends at k"""
+    from vf.ksym.sbytes import SymBytesIO
+    import io
+    FB = [0x00, 0x7F, 0x80, 0xFE, 0xFF]                      # fan-out boundary bytes (solver-forked choice)
+    firsts = [FB[eng.choice(f"first{i}", len(FB))] for i in range(k)]
+    eng.assume(all(firsts[i] < firsts[i + 1] for i in range(k - 1)))
+    tail = b"\x22" * 19
+    names = [bytes([b]) + tail for b in firsts]
+    offs = [eng.int(f"offset{i}", 0, 2 ** 63 - 1) for i in range(k)]
+    crcs = [eng.int(f"crc{i}", 0, 2 ** 32 - 1) for i in range(k)]
+    entries = list(zip(names, offs, crcs))
+    f = io.BytesIO() if eng.mode == "concrete" else SymBytesIO()
+    csum = b"\x11" * 20
+    try:
+        if version == 1:
+            P.write_pack_index_v1(f, entries, csum)
+        elif version == 2:
+            P.write_pack_index_v2(f, entries, csum)
+        else:
+            P.write_pack_index_v3(f, entries, csum)
+    except TypeError:
+        eng.prove(And(version == 1, Or(*[o > 0xFFFFFFFF for o in offs])), "only v1 refuses, and only offsets beyond 32 bits")
+        return
+    data = f.getvalue()
+    cls = {1: P.PackIndex1, 2: P.PackIndex2, 3: P.PackIndex3}[version]
+    idx = cls("mem.idx", DEFAULT_OBJECT_FORMAT, file=_NoFile(), contents=data, size=len(data))
+    eng.prove(len(idx) == k, "entry count")
+    for nm, off, crc in entries:
+        eng.prove(idx.object_offset(nm) == off, f"v{version}: a written name maps back to its pack offset")
+    got = list(idx.iterentries())
+    eng.prove(len(got) == k, "iteration yields every entry")
+    for (n1, o1, c1), (n2, o2, c2) in zip(got, entries):
+        eng.prove(And(n1 == n2, o1 == o2), f"v{version}: iteration returns names and offsets in order")
+        if version >= 2:
+            eng.prove(c1 == c2, "crc32 survives")
+    probe = [0x01, 0x7E, 0x81, 0xFD][eng.choice("probe", 4)]
+    try:
+        idx.object_offset(bytes([probe]) + tail)
+        eng.fail("an absent name must not be found")
+    except KeyError:
+        pass
+    fo = [idx._fan_out_table[i] for i in (0, 127, 255)]
+    eng.prove(And(fo[0] <= fo[1], fo[1] <= fo[2], fo[2] == k), "fan-out is monotone and ends at the entry count")
+
+
+def checks(tier):
+    q = ("quick", "thorough")
+    return _b02(tier) + [
+        KCheck("C02c.index_roundtrip", h_index_roundtrip, parts=[{"version": v, "k": k} for v in (1, 2, 3) for k in (1, 2)],
+               encoded=["dulwich.pack.write_pack_index_v1/v2/v3", "dulwich.pack.PackIndex1/2/3 (_unpack_entry, _unpack_offset, "
+                        "_unpack_crc32_checksum, _object_offset, fan-out)", "dulwich.pack.bisect_find_sha", "dulwich.pack.HashWriter"],
+               bounds="1-2 entries; pack offsets (any value below 2^63: inline, top-bit and 64-bit-table cases) and crc32 symbolic; first "
+                      "name bytes a solver-forked choice of fan-out boundary values {00,7F,80,FE,FF}; versions 1, 2, 3; absent probes",
+               outside="more entries; SHA-256 names; the index's own trailing checksum (hashed data is symbolic: uninterpreted)",
+               assumptions=["sha1 over symbolic data is an uninterpreted function (fresh digest bytes)"], max_decisions=900, tiers=q),
+    ]
